@@ -43,6 +43,10 @@ def main():
             p = sh("/venv/bin/python", os.path.join(VERIF, "harness", "check.py"), prop, "--tier", "quick", env=env, timeout=3000)
             lines = [ln for ln in p.stdout.splitlines() if ln.startswith(("VIOLATION", "OK", "MACH", "  C", "  ["))][:2]
             ok = p.returncode == 1
+            if meta.get("not_covered"):
+                # a change the framework is documented not to reach (the reason is in its meta.json): reported, not counted
+                print(f"{n}: {prop} exit={p.returncode} {'detected (although listed as not covered)' if ok else 'not covered (documented)'}", flush=True)
+                continue
             missed += not ok
             print(f"{n}: {prop} exit={p.returncode} {'detected' if ok else 'MISSED'} {[x[:110] for x in lines]}", flush=True)
     finally:
